@@ -2641,7 +2641,7 @@ def add_row_margin(
 
 def value_counts(x, normalize: bool = False, mask: Optional[ArrayType1D] = None):
     """ """
-    vc = GroupBy.size(x)
+    vc = GroupBy.size(x, mask=mask)
     if normalize:
         vc = vc / vc.sum()
     return vc
